@@ -99,6 +99,11 @@ def failures_of(prop, sc, res, monitor):
         pf.append("sanitizer: " + res["res"]["sanitizer"])
     for f in log.faults:
         pf.append("hygiene: " + f[:160])
+    try:
+        from . import monitors as _M
+        pf += ["wire: " + f for f in _M.mon_wire(log)]
+    except Exception as ex:
+        tf.append("wire monitor raised %r" % (ex,))
     if monitor is not None:
         try:
             pf += monitor(sc, res)
